@@ -65,6 +65,26 @@ CHECKS = {
             "position or sub_formatters[i] out of range; (H7) a default formatter instance that cannot exist. "
             "Value-dependent failures inside third-party encoders are NOT decided.",
             "DESIGN.md section 4 C13, section 3 E4/E5"),
+    "C03": ("sibling-agreement analysis of compound edits: source sets of bounds()/edits() extracted by def-use and "
+            "compared; structural check of the alignment-matrix accumulation; cache-discipline dominance check",
+            "Static analysis (E1): for each of the 9 compound-edit implementations, what bounds() adds up is compared "
+            "with what edits() lists - same attribute/collection sources, same constant-edit populations without "
+            "partial selection, same None-guards (R03a); the alignment matrix accumulates costs[pred] + "
+            "step.bounds().upper_bound for exactly the (pred, step) it returns and reports the last cell (R03b); the "
+            "three views read the script only through edit_list / edits() / on_diff recursion (R03c); bounds caches "
+            "store only definitive intervals (R04d, shared with C04). Numeric equality inside third-party matching "
+            "and numpy accumulation is NOT decided.",
+            "DESIGN.md section 4 C03, section 3 E1"),
+    "C04": ("sibling-agreement (bounds vs tighten_bounds sources), all-paths return analysis, ownership/freshness of "
+            "written Ranges, dominance of caching stores by .definitive()",
+            "Static analysis of structural NECESSARY conditions only: (R04a) every non-constant part bounds() adds is "
+            "refined by tighten_bounds(); (R04b) all 17 tighten_bounds implementations return a boolean on every path "
+            "(the dead partial Karp implementation is exempt by call-graph unreachability); (R04c) in-place writes to "
+            ".lower_bound/.upper_bound only hit Ranges fresh in the same function; (R04d) only definitive intervals are "
+            "cached; (R04e) repeat_until_tightened reports progress only for a shrunk or definitive interval. That "
+            "intervals never widen, contain the final cost and converge in finitely many steps are statements about "
+            "runtime numbers and are NOT decided by this check.",
+            "DESIGN.md section 4 C04"),
 }
 
 NOT_YET = "check not built yet in this session (static rules designed in DESIGN.md; will be claimed once the rule runs clean)"
